@@ -272,7 +272,7 @@ class Run:
         self.known_findings = []
         if os.path.exists(kf):
             self.known_findings = [f for f in json.load(open(kf)).get("findings", [])
-                                   if f.get("status") == "open" and f.get("property") == pid]
+                                   if f.get("status") == "open" and (f.get("property") == pid or pid in f.get("also", []))]
 
     def add_tlc(self, name, r, note=None):
         if r.error:
@@ -296,7 +296,7 @@ class Run:
         equal the corresponding detail['signature'] items."""
         sig = detail.get("signature", {})
         for f in self.known_findings:
-            if all(sig.get(k) == v for k, v in f.get("match", {}).items()):
+            if all((sig.get(k) in v) if isinstance(v, list) else (sig.get(k) == v) for k, v in f.get("match", {}).items()):
                 if f["id"] not in [k["id"] for k in self.known]:
                     self.known.append(f)
                 return
